@@ -420,7 +420,7 @@ func init() {
 		Setup:       validateOracle,
 		Timeout:     minutes(15, 120),
 		Cases: func(tier string, seed int64) []fw.Case {
-			return mkCases(nil, "searches", 64, seed, pick(tier, 40, 3000))
+			return mkCases(nil, "searches", 64, seed, pick(tier, 40, 400))
 		},
 		Floors: func(string) map[string]int64 {
 			return map[string]int64{"searches": 1500, "root_mate_for_ge3": 20, "root_mate_against_ge2": 5, "draw_inside_tree": 100, "stalemate_inside_tree": 50, "selective_pruned": 100, "drawn_root": 5, "moveless_root": 10}
@@ -436,7 +436,7 @@ func init() {
 		Setup:       validateOracle,
 		Timeout:     minutes(15, 120),
 		Cases: func(tier string, seed int64) []fw.Case {
-			return mkCases(nil, "windows", 64, seed, pick(tier, 20, 1500))
+			return mkCases(nil, "windows", 64, seed, pick(tier, 20, 250))
 		},
 		Floors: func(string) map[string]int64 {
 			return map[string]int64{"windowed_searches": 5000, "windowed_quiet": 500, "win_inside": 500, "win_fail_low": 500, "win_fail_high": 500, "win_mate_bound": 1000, "quiet_terminal": 20}
